@@ -4,7 +4,7 @@ answer for each request, and the decidable oracles of C11 / C12 / C26 / C27 eval
 implementation's answer.  Nothing here is part of a theorem statement except the oracle
 definitions the `Props/` files quote.
 -/
-import IsoVerif.Model.Core.ParamType
+import IsoVerif.Model.Core.Parse
 import IsoVerif.Model.Util
 
 namespace IsoVerif.Core
@@ -66,7 +66,7 @@ def pSchema (fuel : Nat) : P Schema :=
         | k :: r3 =>
           match pType fuel r3 with
           | none => none
-          | some (t, r4) => (pStr r4).map fun (it, r) => (⟨e, f, k == "s", t, it⟩, r)
+          | some (t, r4) => (pStr r4).map fun (it, r) => (⟨e, f, k == "s", k == "c", t, it⟩, r)
         | [] => none
 
 /-- sequencing helper: run `p`, continue with `k` -/
@@ -104,11 +104,11 @@ def pOpLine (ts : List String) : Option OpLine :=
      andThen (expect "N") fun _ => andThen (pMapOrSame fuel qMap) fun nMap =>
      andThen (expect "O") fun _ => andThen pStr fun oName => andThen (pVarDefs fuel) fun oVars =>
      andThen pStr fun oRoot => andThen pPersist fun persist => andThen (pMapOrSame fuel qMap) fun oMap =>
-     fun r =>
+     andThen (expect "S") fun _ => andThen (pSchema fuel) fun schema => fun r =>
        some ({ kind := "R", parentType, fieldName, index, ext, concreteType := rootEntity,
                lazyNormalization := false, lazyReader := false, component := false, header, opKind,
                qName, qVars, qMap, nMap, oName, oVars, oRoot, persist, oMap, refs := [],
-               rParent := [], rMap := [], schema := [] : OpLine }, r)) rest |>.map (·.1)
+               rParent := rootEntity, rMap := [], schema : OpLine }, r)) rest |>.map (·.1)
   | _ => none
 
 def pParamLine (ts : List String) : Option (ParamMeta × Option Str) :=
@@ -165,6 +165,440 @@ def opFiles (H : Str → Str) (l : OpLine) : List String :=
       | _, _ => none
     [optHex qt, optHex rf]
 
+/-! ### C11: the normalization AST has the selection tree of the operation text -/
+
+mutual
+def QNode.toTree : QNode → Tree
+  | .field _ name args none => .field name args none
+  | .field _ name args (some kids) => .field name args (some (QNode.toTrees kids))
+  | .frag ty kids => .frag ty (QNode.toTrees kids)
+def QNode.toTrees : List QNode → List Tree
+  | [] => []
+  | q :: rest => q.toTree :: QNode.toTrees rest
+end
+
+def isTypenameOnly : List Tree → Bool
+  | [.field name [] none] => name == cs!"__typename"
+  | _ => false
+
+mutual
+/-- first difference between two selection trees (`none` = equal) -/
+def treeDiff : Tree → Tree → Option String
+  | .field n1 a1 k1, .field n2 a2 k2 =>
+    if n1 != n2 then some "field-name"
+    else if !(argsBeq a1 a2) then some "arguments"
+    else match k1, k2 with
+      | none, none => none
+      | some x, some y => treesDiff x y
+      | _, _ => some "selection-set-presence"
+  | .frag t1 k1, .frag t2 k2 => if t1 != t2 then some "fragment-type" else treesDiff k1 k2
+  | _, _ => some "node-kind"
+/-- operation tree first, normalization tree second -/
+def treesDiff : List Tree → List Tree → Option String
+  | [], [] => none
+  | x :: xs, y :: ys =>
+    match treeDiff x y with
+    | some d => some d
+    | none => treesDiff xs ys
+  | q, [] => if isTypenameOnly q then some "empty-selection" else some "missing-in-normalization-ast"
+  | [], _ => some "extra-in-normalization-ast"
+end
+
+/-- the concrete type of every linked node is the field's target exactly when that is concrete -/
+def concreteOk (schema : Schema) : Nat → Str → List NTree → Bool
+  | 0, _, _ => true
+  | _, _, [] => true
+  | fuel + 1, parent, t :: rest =>
+    (match t with
+     | .scalar .. => true
+     | .linked _ name _ conc kids =>
+       match schema.lookup parent name with
+       | none => true          -- not in the table: nothing to check against
+       | some e =>
+         match e.ty.inner with
+         | none => true
+         | some target =>
+           (if e.isScalar then true
+            else if e.targetConcrete then (match conc with | .concrete c => c == target | .abstract => false)
+            else (match conc with | .abstract => true | .concrete _ => false))
+           && concreteOk schema fuel target kids
+     | .frag ty kids => concreteOk schema fuel ty kids)
+    && concreteOk schema fuel parent rest
+
+/-- C11's decidable statement on one pair of generated files -/
+def c11Oracle (schema : Schema) (root : Str) (op : ParsedOperation) (norm : List NTree) : String :=
+  match treesDiff (QNode.toTrees op.selections) (NTree.eraseList norm) with
+  | some d => "bad:tree:" ++ d
+  | none => if concreteOk schema 1000 root norm then "ok" else "bad:concrete-type"
+
+/-! ### C12: response keys -/
+
+def isNameStart (c : Nat) : Bool := c == 95 || (65 ≤ c && c ≤ 90) || (97 ≤ c && c ≤ 122)
+
+/-- GraphQL `Name`: `[_A-Za-z][_0-9A-Za-z]*` -/
+def isGqlName : Str → Bool
+  | [] => false
+  | c :: rest => isNameStart c && rest.all isWordChar
+
+mutual
+def Value.anyStr (p : Str → Bool) : Value → Bool
+  | .str s => p s
+  | .obj fields => Value.anyStrFields p fields
+  | .list items => Value.anyStrList p items
+  | _ => false
+def Value.anyStrFields (p : Str → Bool) : List (Str × Value) → Bool
+  | [] => false
+  | (_, v) :: rest => v.anyStr p || Value.anyStrFields p rest
+def Value.anyStrList (p : Str → Bool) : List Value → Bool
+  | [] => false
+  | v :: rest => v.anyStr p || Value.anyStrList p rest
+end
+
+mutual
+def Value.anyLeaf (p : Value → Bool) : Value → Bool
+  | .obj fields => Value.anyLeafFields p fields
+  | .list items => Value.anyLeafList p items
+  | v => p v
+def Value.anyLeafFields (p : Value → Bool) : List (Str × Value) → Bool
+  | [] => false
+  | (_, v) :: rest => v.anyLeaf p || Value.anyLeafFields p rest
+def Value.anyLeafList (p : Value → Bool) : List Value → Bool
+  | [] => false
+  | v :: rest => v.anyLeaf p || Value.anyLeafList p rest
+end
+
+def argsAny (p : Value → Bool) (args : Args) : Bool := args.any fun a => a.2.anyLeaf p
+
+mutual
+/-- strings replaced by their collapse -/
+def Value.collapse : Value → Value
+  | .str s => .str (collapseStr s)
+  | .obj fields => .obj (Value.collapseFields fields)
+  | v => v
+def Value.collapseFields : List (Str × Value) → List (Str × Value)
+  | [] => []
+  | (k, v) :: rest => (k, v.collapse) :: Value.collapseFields rest
+end
+
+def collapseArgs (args : Args) : Args := Value.collapseFields args
+
+/-- narrow classifier for an illegal key -/
+def classifyIllegal (key : Str) (args : Args) : String :=
+  if argsAny (fun v => match v with | .int i => i < 0 | _ => false) args && key.contains 45 then "negative-int-alias"
+  else if argsAny (fun v => match v with | .float _ => true | _ => false) args then "float-alias"
+  else if !(key.all (fun c => c < 128)) then "non-ascii-name-in-alias"
+  else "other"
+
+/-- narrow classifier for two different selections with one key -/
+def classifyCollision (n1 : Str) (a1 : Args) (n2 : Str) (a2 : Args) : String :=
+  if n1 == n2 && argsBeq (collapseArgs a1) (collapseArgs a2) then "string-arg-nonword-collapse"
+  else "underscore-ambiguity"
+
+def maxInt53 : Int := 9007199254740992
+
+/-- narrow classifier for a compiler key that differs from the runtime's -/
+def classifyRuntime (args : Args) : String :=
+  if argsAny (fun v => match v with | .str s => s.any (· ≥ 0x10000) | _ => false) args then "astral-utf16-length"
+  else if argsAny (fun v => match v with | .str s => s.contains 92 | _ => false) args then "string-escape-js-evaluated"
+  else if argsAny (fun v => match v with | .int i => i > maxInt53 || i < -maxInt53 | _ => false) args then "int-beyond-2^53"
+  else if argsAny (fun v => match v with | .float _ => true | _ => false) args then "float-format"
+  else "other"
+
+/-- (key, name, args) of the fields of one selection set -/
+def fieldKeys : List QNode → List (Str × Str × Args)
+  | [] => []
+  | .field alias name args _ :: rest => (alias.getD name, name, args) :: fieldKeys rest
+  | .frag .. :: rest => fieldKeys rest
+
+def firstCollision : List (Str × Str × Args) → Option String
+  | [] => none
+  | (k, n, a) :: rest =>
+    match rest.find? (fun e => e.1 == k && !(e.2.1 == n && argsBeq e.2.2 a)) with
+    | some e => some (classifyCollision n a e.2.1 e.2.2)
+    | none => firstCollision rest
+
+/-- legality and uniqueness of the keys of every selection set of the operation -/
+def keysOracle : Nat → List QNode → Option String
+  | 0, _ => none
+  | fuel + 1, sels =>
+    let keys := fieldKeys sels
+    match keys.find? (fun e => !(isGqlName e.1)) with
+    | some e => some ("illegal-key:" ++ classifyIllegal e.1 e.2.2)
+    | none =>
+      match firstCollision keys with
+      | some c => some ("key-collision:" ++ c)
+      | none =>
+        let rec kids : List QNode → Option String
+          | [] => none
+          | .field _ _ _ (some ks) :: rest => (keysOracle fuel ks).orElse fun _ => kids rest
+          | .frag _ ks :: rest => (keysOracle fuel ks).orElse fun _ => kids rest
+          | _ :: rest => kids rest
+        kids sels
+
+/-- the key the compiler wrote (operation text) equals the key the runtime computes from the
+normalization AST node at the same position -/
+def runtimeKeysOracle : Nat → List QNode → List NTree → Option String
+  | 0, _, _ => none
+  | _, [], _ => none
+  | _, _, [] => none
+  | fuel + 1, q :: qs, n :: ns =>
+    let here : Option String :=
+      match q, n with
+      | .field alias name _ kids, .scalar _ nname nargs =>
+        let key := alias.getD name
+        if networkResponseKey nname nargs == some (utf16 key) then
+          (match kids with | some _ => some "other" | none => none)
+        else some (classifyRuntime nargs)
+      | .field alias name _ kids, .linked _ nname nargs _ nkids =>
+        let key := alias.getD name
+        if networkResponseKey nname nargs == some (utf16 key) then
+          (match kids with | some ks => runtimeKeysOracle fuel ks nkids | none => some "other")
+        else some (classifyRuntime nargs)
+      | .frag _ ks, .frag _ nks => runtimeKeysOracle fuel ks nks
+      | _, _ => some "other"
+    match here with
+    | some c => some c
+    | none => runtimeKeysOracle fuel qs ns
+
+/-- C12's decidable statement on one pair of generated files -/
+def c12Oracle (op : ParsedOperation) (norm : List NTree) : String :=
+  match keysOracle 1000 op.selections with
+  | some s => "bad:" ++ s
+  | none =>
+    -- the positional pairing needs equal trees (C11); otherwise nothing to compare
+    match treesDiff (QNode.toTrees op.selections) (NTree.eraseList norm) with
+    | some _ => "ok"
+    | none =>
+      match runtimeKeysOracle 1000 op.selections norm with
+      | some c => "bad:runtime-key:" ++ c
+      | none => "ok"
+
+/-! ### C27: type text against the operation / the selection set -/
+
+mutual
+/-- nullable / list structure of a schema type -/
+def TypeAnn.shape : TypeAnn → TyShape
+  | .scalar _ => .leaf
+  | .plural t => .list t.shape
+  | .union nullable variants =>
+    if nullable then .nullable (TypeAnn.firstShape variants) else TypeAnn.firstShape variants
+def TypeAnn.firstShape : List TypeAnn → TyShape
+  | [] => .leaf
+  | t :: _ => t.shape
+end
+
+/-- expected property: key, expected type (if the schema table has the field), alternatives -/
+inductive XProp where
+  | mk (key : Str) (ty : Option TypeAnn) (alts : Option (List (List XProp)))
+deriving Inhabited
+
+def qKey : QNode → Str
+  | .field alias name _ _ => alias.getD name
+  | .frag ty _ => ty
+
+/-- GraphQL field merging of two selection lists (same response key ⇒ sub-selections merged) -/
+def mergeSels : Nat → List QNode → List QNode → List QNode
+  | 0, a, b => a ++ b
+  | _, a, [] => a
+  | fuel + 1, a, b :: bs =>
+    match b with
+    | .field alias name args kids =>
+      let key := alias.getD name
+      if a.any (fun x => match x with | .field al n _ _ => al.getD n == key | _ => false) then
+        mergeSels fuel (a.map fun x =>
+          match x with
+          | .field al n ar ks =>
+            if al.getD n == key then
+              .field al n ar (match ks, kids with
+                | some k1, some k2 => some (mergeSels fuel k1 k2)
+                | some k1, none => some k1
+                | none, k2 => k2)
+            else x
+          | other => other) bs
+      else mergeSels fuel (a ++ [.field alias name args kids]) bs
+    | .frag ty ks =>
+      if a.any (fun x => match x with | .frag t _ => t == ty | _ => false) then
+        mergeSels fuel (a.map fun x =>
+          match x with
+          | .frag t k1 => if t == ty then .frag t (mergeSels fuel k1 ks) else x
+          | other => other) bs
+      else mergeSels fuel (a ++ [.frag ty ks]) bs
+
+def isFragNode : QNode → Bool
+  | .frag .. => true
+  | _ => false
+
+/-- the alternatives the response object can take: without inline fragments one alternative with
+one property per field; with inline fragments one alternative per fragment (fields outside the
+fragments merged with the fragment's) -/
+def expectedAlts (schema : Schema) : Nat → Str → List QNode → List (List XProp)
+  | 0, _, _ => []
+  | fuel + 1, parent, sels =>
+    let frags := sels.filter isFragNode
+    let rest := sels.filter (fun q => !(isFragNode q))
+    let props (parent : Str) (fields : List QNode) : List XProp :=
+      fields.filterMap fun q =>
+        match q with
+        | .field alias name _ kids =>
+          let entry := schema.lookup parent name
+          let ty := entry.map (·.ty)
+          let target := (ty.bind TypeAnn.inner).getD []
+          some (.mk (alias.getD name) ty (kids.map fun ks => expectedAlts schema fuel target ks))
+        | .frag .. => none
+    if frags.isEmpty then [props parent rest]
+    else frags.flatMap fun f =>
+      match f with
+      | .frag ty ks => expectedAlts schema fuel ty (mergeSels 1000 rest ks)
+      | _ => []
+
+def insertProp (p : TProp) : List TProp → List TProp
+  | [] => [p]
+  | q :: rest =>
+    match p, q with
+    | .mk k1 .., .mk k2 .. => if lexLt k1 k2 then p :: q :: rest else q :: insertProp p rest
+
+def sortProps (ps : List TProp) : List TProp := ps.foldl (fun acc p => insertProp p acc) []
+
+def insertXProp (p : XProp) : List XProp → List XProp
+  | [] => [p]
+  | q :: rest =>
+    match p, q with
+    | .mk k1 .., .mk k2 .. => if lexLt k1 k2 then p :: q :: rest else q :: insertXProp p rest
+
+def sortXProps (ps : List XProp) : List XProp := ps.foldl (fun acc p => insertXProp p acc) []
+
+mutual
+/-- compare a parsed type with the expectation; `none` = they agree -/
+def propsDiff : Nat → List TProp → List XProp → Option String
+  | 0, _, _ => none
+  | _, [], [] => none
+  | fuel + 1, .mk k opt _ shape alts :: ts, .mk xk xty xalts :: xs =>
+    if k != xk then some (if xk == cs!"__typename" && k != cs!"__typename" then "keys:typename" else "keys")
+    else
+      let tyOk : Option String :=
+        match xty with
+        | none => none
+        | some ty =>
+          if opt != ty.isNullable then some "nullable"
+          else if shape != ty.shape then some "list-shape"
+          else none
+      match tyOk with
+      | some d => some d
+      | none =>
+        match alts, xalts with
+        | none, none => propsDiff fuel ts xs
+        | some a, some xa => (altsDiff fuel a xa).orElse fun _ => propsDiff fuel ts xs
+        | _, _ => some "nesting"
+  | _, [], .mk xk .. :: _ => some (if xk == cs!"__typename" then "keys:typename" else "keys")
+  | _, _ :: _, [] => some "keys"
+def altsDiff : Nat → List (List TProp) → List (List XProp) → Option String
+  | 0, _, _ => none
+  | _, [], [] => none
+  | fuel + 1, a :: as, x :: xs =>
+    (propsDiff fuel (sortProps a) (sortXProps x)).orElse fun _ => altsDiff fuel as xs
+  | _, _, _ => some "alternatives"
+end
+
+def hasFrags : Nat → List QNode → Bool
+  | 0, _ => false
+  | _, [] => false
+  | fuel + 1, q :: rest =>
+    (match q with
+     | .frag .. => true
+     | .field _ _ _ (some ks) => hasFrags fuel ks
+     | _ => false) || hasFrags fuel rest
+
+/-- C27 (raw response type): keys, nesting and list structure of the raw response type are those
+of the operation -/
+def c27RawOracle (schema : Schema) (root : Str) (op : ParsedOperation) (raw : List (List TProp)) : String :=
+  match altsDiff 1000 raw (expectedAlts schema 1000 root op.selections) with
+  | none => "ok"
+  | some d =>
+    if d == "keys:typename" then "bad:raw:empty-selection-typename"
+    else if hasFrags 1000 op.selections then "bad:raw:" ++ d ++ ":with-inline-fragments"
+    else "bad:raw:" ++ d
+
+/-- C27 (parameter type): exactly one property per selection, named by alias-or-name; nullable and
+list structure of server fields as in the schema -/
+def paramDiff : Nat → List TProp → List PSel → Option String
+  | 0, _, _ => none
+  | _, [], [] => none
+  | fuel + 1, .mk k opt ro shape alts :: ts, s :: ss =>
+    let here : Option String :=
+      match s with
+      | .serverScalar name _ ty _ _ =>
+        if k != name then some "props" else if opt then some "optional-marker"
+        else if !ro then some "readonly" else if shape != ty.shape then some "nullable-or-list" else none
+      | .serverObject name _ ty _ sels =>
+        if k != name then some "props" else if opt then some "optional-marker"
+        else if shape != ty.shape then some "nullable-or-list"
+        else match alts with
+          | some [props] => paramDiff fuel props sels
+          | _ => some "nesting"
+      | .clientScalar name .. => if k != name then some "props" else none
+      | .clientObject name .. => if k != name then some "props" else none
+      | .unresolved _ => some "unresolved"
+    here.orElse fun _ => paramDiff fuel ts ss
+  | _, _, _ => some "props"
+
+def c27ParamOracle (sels : List PSel) (props : List TProp) : String :=
+  match paramDiff 1000 props sels with
+  | none => "ok"
+  | some d => "bad:param:" ++ d
+
+/-! ### C26: persisted documents -/
+
+def unhex4 (ds : Str) : Option Nat := hexDigitsVal ds
+
+/-- body of a JSON string (after the opening quote): (value, rest after the closing quote) -/
+def jsonStringBody : Nat → Str → Str → Option (Str × Str)
+  | 0, _, _ => none
+  | _, [], _ => none
+  | fuel + 1, c :: rest, acc =>
+    if c == 34 then some (acc.reverse, rest)
+    else if c != 92 then jsonStringBody fuel rest (c :: acc)
+    else
+      match rest with
+      | 110 :: r => jsonStringBody fuel r (10 :: acc)
+      | 116 :: r => jsonStringBody fuel r (9 :: acc)
+      | 114 :: r => jsonStringBody fuel r (13 :: acc)
+      | 98 :: r => jsonStringBody fuel r (8 :: acc)
+      | 102 :: r => jsonStringBody fuel r (12 :: acc)
+      | 117 :: a :: b :: c2 :: d :: r =>
+        match unhex4 [a, b, c2, d] with
+        | some v => jsonStringBody fuel r (v :: acc)
+        | none => none
+      | e :: r => jsonStringBody fuel r (e :: acc)
+      | [] => none
+
+/-- `{ "k": "v", … }` -/
+def parseJsonStringMap (text : Str) : Option (List (Str × Str)) :=
+  let rec go : Nat → Str → List (Str × Str) → Option (List (Str × Str))
+    | 0, _, _ => none
+    | _, [], _ => none
+    | fuel + 1, c :: rest, acc =>
+      if isSpace c || c == 44 || c == 123 then go fuel rest acc
+      else if c == 125 then some acc.reverse
+      else if c == 34 then
+        match jsonStringBody (rest.length + 1) rest [] with
+        | none => none
+        | some (k, rest1) =>
+          let rest2 := rest1.dropWhile (fun x => isSpace x || x == 58)
+          match rest2 with
+          | 34 :: rest3 =>
+            match jsonStringBody (rest3.length + 1) rest3 [] with
+            | some (v, rest4) => go fuel rest4 ((k, v) :: acc)
+            | none => none
+          | _ => none
+      else none
+  go (text.length + 1) text []
+
+/-- `operationId: "<id>"` of an entrypoint / refetch artifact -/
+def operationIdOf (file : Str) : Option Str :=
+  (afterMarker cs!"operationId: \"" (file.length + 1) file).map fun r => r.takeWhile (· != 34)
+
+def strSetEq (a b : List Str) : Bool := a.all (b.contains ·) && b.all (a.contains ·)
+
 namespace Drv
 
 def parseTable (ts : List String) : List (Str × Str) :=
@@ -172,25 +606,107 @@ def parseTable (ts : List String) : List (Str × Str) :=
   | some (ps, _) => ps
   | none => []
 
-def opLine (_prop : String) (wire dg impl : List String) : String :=
+def decodeFile (h : String) : Option Str := if h == "nofile" || h == "panic" then none else hexStr h
+
+/-- verdict of the selected property on one operation's files -/
+def opVerdict (prop : String) (l : OpLine) (table : List (Str × Str)) (impl : List String) : String :=
+  let files := impl.map decodeFile
+  let qtFile := (files.getD 0 none)
+  let normFile := if l.kind == "E" then files.getD 1 none else files.getD 1 none
+  let op := qtFile.bind parseQueryTextFile
+  let norm := normFile.bind parseNormAstFile
+  if prop == "C11" then
+    match op, norm with
+    | some o, some n => c11Oracle l.schema (if l.kind == "E" then l.rParent else l.concreteType) o n
+    | none, _ => "bad:unparsable-operation-text"
+    | _, none => "bad:unparsable-normalization-ast"
+  else if prop == "C12" then
+    match op, norm with
+    | some o, some n => c12Oracle o n
+    | none, _ => "bad:unparsable-operation-text"
+    | _, none => "bad:unparsable-normalization-ast"
+  else if prop == "C26" then
+    match l.persist with
+    | none => "ok"
+    | some _ =>
+      let artifact := if l.kind == "E" then files.getD 3 none else files.getD 1 none
+      match artifact.bind operationIdOf with
+      | none => "bad:no-operation-id"
+      | some id =>
+        -- the harness hashed the document recorded under this id
+        match table with
+        | [] => "bad:id-not-in-documents"
+        | (_, dg) :: _ => if dg == id then "ok" else "bad:id-hash-mismatch"
+  else if prop == "C27" then
+    if l.kind != "E" then "ok" else
+    match op, (files.getD 2 none).bind parseRawResponseFile with
+    | some o, some raw => c27RawOracle l.schema l.rParent o raw
+    | none, _ => "bad:unparsable-operation-text"
+    | _, none => "bad:unparsable-raw-response-type"
+  else "ok"
+
+def opLine (prop : String) (wire dg impl : List String) : String :=
   match pOpLine wire with
   | none => "unparsable-wire\tok"
   | some l =>
     let table := if dg == ["-"] then [] else parseTable dg
     let files := opFiles (tableHash table) l
-    let _ := impl
-    " ".intercalate files ++ "\tok"
+    " ".intercalate files ++ "\t" ++ opVerdict prop l table impl
 
-def paramLine (_prop : String) (wire impl : List String) : String :=
+def paramLine (prop : String) (wire impl : List String) : String :=
   match pParamLine wire with
   | none => "unparsable-wire\tok"
   | some (m, header) =>
-    let _ := impl
-    strHex (withHeader header (paramTypeFile m)) ++ "\tok"
+    let verdict :=
+      if prop != "C27" then "ok" else
+      match (impl.head?.bind decodeFile).bind parseParamTypeFile with
+      | some props => c27ParamOracle m.sels props
+      | none => "bad:unparsable-param-type"
+    strHex (withHeader header (paramTypeFile m)) ++ "\t" ++ verdict
+
+/-- split the wires of a project at the `|` tokens -/
+def splitWires (ts : List String) : List (List String) :=
+  let rec go : List String → List String → List (List String) → List (List String)
+    | [], cur, acc => (if cur.isEmpty then acc else cur.reverse :: acc).reverse
+    | t :: rest, cur, acc => if t == "|" then go rest [] (cur.reverse :: acc) else go rest (t :: cur) acc
+  go ts [] []
 
 def persistedLine (wires table plain impl : List String) : String :=
-  let _ := (wires, table, plain, impl)
-  "todo\tok"
+  let ops := (splitWires wires).filterMap pOpLine
+  let tbl := parseTable (table.drop 1)
+  let H := tableHash tbl
+  -- model: run generate_operation_text for every operation in order
+  let step (acc : Docs × List Str) (l : OpLine) : Docs × List Str :=
+    match l.persist, printQuery .compact l.opKind l.oName l.oVars l.oMap with
+    | some o, some compact =>
+      let (_, id, docs) := generateOperationText H (some o) acc.1 compact l.oName l.oRoot 1
+      (docs, acc.2 ++ [id.getD []])
+    | _, _ => (acc.1, acc.2 ++ [[]])
+  let (docs, ids) := ops.foldl step ([], [])
+  let idsField := if ids.isEmpty then "-" else ",".intercalate (ids.map strHex)
+  let model := strHex (persistedDocumentsJson docs) ++ " " ++ idsField
+  -- oracle on the implementation's file and ids
+  let implDocs := ((impl.head?.bind decodeFile).bind parseJsonStringMap)
+  let implIds : List Str :=
+    match impl.getD 1 "-" with
+    | "-" => []
+    | s => (s.splitOn ",").filterMap hexStr
+  let plainFiles : List (Option Str) := (plain.drop 1).map decodeFile
+  let verdict :=
+    match implDocs with
+    | none => "bad:unparsable-persisted-documents"
+    | some ds =>
+      if !(ds.all fun e => H e.2 == e.1) then "bad:id-hash-mismatch"
+      else if !(strSetEq (ds.map (·.1)) implIds) then "bad:documents-not-exact"
+      else
+        let pairs := implIds.zip plainFiles
+        let same := pairs.all fun (id, pf) =>
+          match ds.find? (fun e => e.1 == id), pf.bind embeddedText with
+          | some e, some text =>
+            stripInsignificant e.2 == stripInsignificant (dropContinuations text)
+          | _, _ => false
+        if same then "ok" else "bad:document-differs"
+  model ++ "\t" ++ verdict
 
 def aliasLine (_prop : String) (args impl : List String) : String :=
   let _ := (args, impl)
